@@ -547,7 +547,7 @@ func ruleTickAndCatchup(c *Ctx, ruleTick, ruleCU string, sign *ssa.Function) {
 		// inside the closure: the call passes the closure's own parameters
 		ci, ui := -1, -1
 		for i, p := range cf.Params {
-			if stripConv(cur) == ssa.Value(p) {
+			if paramBehind(cur) == p {
 				ci = i
 			}
 			if addrOfParam(upon, p) {
@@ -1012,4 +1012,21 @@ func rootsAt(v ssa.Value, target ssa.Value) bool {
 		}
 	}
 	return false
+}
+
+// paramBehind: v is a parameter, or the reload of a parameter that go/ssa spilled to a local cell (it does so as soon as a
+// field of a struct-typed parameter is read).
+func paramBehind(v ssa.Value) *ssa.Parameter {
+	v = stripConv(v)
+	if p, ok := v.(*ssa.Parameter); ok {
+		return p
+	}
+	if u, ok := v.(*ssa.UnOp); ok && u.Op == token.MUL {
+		if a, isA := u.X.(*ssa.Alloc); isA {
+			if p, isP := singleStore(a).(*ssa.Parameter); isP {
+				return p
+			}
+		}
+	}
+	return nil
 }
